@@ -186,6 +186,26 @@ func (m *MonRewards) AfterBlock(s *Sim, req *BlockReq, res *BlockRes) {
 	if res.Stopped || m.view == nil || s.Post == nil || s.Pre == nil {
 		return
 	}
+	m.judgeBlock(s, req, s.Post.Validators, BI(s.Post.TotalSlashed), false)
+}
+
+// OnPanic: when the node's own consistency check refuses to commit, EndBlock has run; an ordinary (non-payout)
+// block can still be judged from the live validators and the live total-slashed counter.
+func (m *MonRewards) OnPanic(s *Sim, req *BlockReq, pi *PanicInfo, txIndex int) {
+	if pi.Call != "Commit" || m.view == nil || m.payoutHeight(s, req.Height) {
+		return
+	}
+	defer func() { recover() }()
+	cs := s.N.App.CurrentState()
+	var vals []types.Validator
+	for _, val := range cs.Validators().GetValidators() {
+		vals = append(vals, types.Validator{PubKey: val.PubKey, TotalBipStake: val.GetTotalBipStake().String(), AccumReward: val.GetAccumReward().String()})
+	}
+	m.Res.Count("blocks_judged_after_commit_panic", 1)
+	m.judgeBlock(s, req, vals, new(big.Int).Set(cs.App().GetTotalSlashed()), true)
+}
+
+func (m *MonRewards) judgeBlock(s *Sim, req *BlockReq, postVals []types.Validator, postSlashed *big.Int, afterPanic bool) {
 	h := req.Height
 	v := m.view
 	signed := map[types.TmAddress]bool{}
@@ -269,15 +289,15 @@ func (m *MonRewards) AfterBlock(s *Sim, req *BlockReq, res *BlockRes) {
 		return
 	}
 	post := map[types.Pubkey]*types.Validator{}
-	for i := range s.Post.Validators {
-		post[s.Post.Validators[i].PubKey] = &s.Post.Validators[i]
+	for i := range postVals {
+		post[postVals[i].PubKey] = &postVals[i]
 	}
 	inView := map[types.Pubkey]bool{}
 	for _, val := range v.Vals {
 		inView[val.Pub] = true
 	}
 	payout := m.payoutHeight(s, h)
-	endSlashed := new(big.Int).Sub(BI(s.Post.TotalSlashed), v.Slashed)
+	endSlashed := new(big.Int).Sub(postSlashed, v.Slashed)
 	wantSlashed := new(big.Int).Set(remainder)
 	lockedAnywhere := false
 
@@ -322,6 +342,9 @@ func (m *MonRewards) AfterBlock(s *Sim, req *BlockReq, res *BlockRes) {
 			s.Report(Violation{Property: "C19", Rule: "remainder", Site: site, Height: h, TxIndex: -1,
 				Detail: fmt.Sprintf("total slashed grew by %s in EndBlock, expected %s (block remainder %s of pool %s)", endSlashed, wantSlashed, remainder, pool)})
 		}
+	}
+	if afterPanic {
+		cls += " (commit refused by the node)"
 	}
 	m.Res.Evaluations++
 	m.Res.Seen(cls)
@@ -629,9 +652,9 @@ func init() {
 	MonitorsFor["C19"] = mons
 	Register(&CheckDef{
 		ID: "C19", Level: "exploration",
-		Rule: "generated histories (genesis families of the standard scenarios with validator stake vectors rewritten to primes, powers of two, 1-pip stakes beside 10^9 BIP, commissions 0/1/10/50/99/100, delegators with active and expiring stake locks; state-aware transactions of all types with delegate/unbond/switch/commission-edit/lock weights raised; absences, absence runs, evidence; stake periods 6..60); one evaluation = one committed block whose accrual per validator (floor share of reward+fees+returned accruals among the validators recorded present, remainder to total-slashed) and, at payout heights, every RewardEvent (10% DAO, 10% developers, commission, bip-proportional delegator shares, nothing above the accrued amount except the emission surplus of locked stakes) was compared with the reference; distinct = block classes (pool kind x absences x drops x evidence x cap) and payout classes (commission value, locks, custom-coin stakes, zero accrual, rounding to zero, key change)",
+		Rule:        "generated histories (genesis families of the standard scenarios with validator stake vectors rewritten to primes, powers of two, 1-pip stakes beside 10^9 BIP, commissions 0/1/10/50/99/100, delegators with active and expiring stake locks; state-aware transactions of all types with delegate/unbond/switch/commission-edit/lock weights raised; absences, absence runs, evidence; stake periods 6..60); one evaluation = one committed block whose accrual per validator (floor share of reward+fees+returned accruals among the validators recorded present, remainder to total-slashed) and, at payout heights, every RewardEvent (10% DAO, 10% developers, commission, bip-proportional delegator shares, nothing above the accrued amount except the emission surplus of locked stakes) was compared with the reference; distinct = block classes (pool kind x absences x drops x evidence x cap) and payout classes (commission value, locks, custom-coin stakes, zero accrual, rounding to zero, key change)",
 		Assumptions: []string{"the fee a transaction adds to the block pool is read from its tags (cross-checked against the pool counter after every DeliverTx)", "stakes, accruals, drop marks, commissions and locks are read through the state accessors after the last DeliverTx of the block", "the block reward itself (C28) is taken as the node reports it"},
-		Quick: 42, Thorough: 900, MinEval: 2500, MinDistinct: 25,
+		Quick:       42, Thorough: 900, MinEval: 2500, MinDistinct: 25,
 		Post: func(total *WorkerResult) {
 			RequireSeen(total, "accrual: reward+fees some-absent", "accrual: reward-only", "accrual: zero-pool", "accrual: fees-only", "payout: commission=0", "payout: commission=100",
 				"payout: locked delegator", "payout: emission surplus for locked stakes", "payout: share rounds to zero", "payout: custom-coin stake", "payout: nothing accrued")
